@@ -75,6 +75,8 @@ type State struct {
 	frameDepth int
 	// call-frame linkage for inlined calls
 	frame *Frame
+	// call instructions of the helpers currently being executed inline (innermost last)
+	callStack []*ssa.Call
 }
 
 type Frame struct {
@@ -106,6 +108,7 @@ func (st *State) fork() *State {
 		n.active[k] = v
 	}
 	n.trace = append([]string{}, st.trace...)
+	n.callStack = append([]*ssa.Call{}, st.callStack...)
 	return n
 }
 
